@@ -28,6 +28,7 @@ CFG = {
              "(violation), any other overrun is inconclusive. A share of the random cases runs under strace to label join-before-finish / join-after-finish. "
              "Non-trivial = batch with >= 2 threads live at the same time and >= 1 joined non-() result; distinct by hash of the case."),
     "assumptions": ["x86_64 only (the aarch64 asm is not reachable)",
+                    "a closure may use 256 KiB of stack (an eighth of the 2 MiB spawn maps per thread today; the property does not state a size): one batch of sub-check spurious does",
                     "relative timing is only biased by delays, not owned: instruction-level interleavings of the thread epilogue against join are sampled",
                     "a failing allocator mmap inside spawn is outside the quantifier (stack mmap and clone only) and is not injected",
                     "for a spawn whose creation was made to fail any Err is accepted; Ok(handle) is accepted when join returns and the closure ran at most once"],
